@@ -127,9 +127,17 @@ TypeCoreLeaves == {Var("tp"), Var("ks"), Var("mp"), Var("cm"), Var("x")}
 ASSUME TypeKeys \subseteq TypeLeaves /\ TypeCoreLeaves \subseteq TypeLeaves
 ASSUME \A k \in SeqKinds \cup MapKinds : \E l \in TypeLeaves \cup SmallLeaves : \E c \in {Ctx, Ctx2} :
           l.t = "var" /\ l.n \in DOMAIN c /\ c[l.n].t = k
+\* Stateful nested strings (TagArgs!StatefulTpl) beside leaves without state and a leaf that follows the loop
+\* variable: every list is replayed alone AND as several tags with the same text in one template
+\* (TagArgs!TogetherForms) - each copy must denote what the tag alone denotes.
+StateLeaves == {Tpl(31), Tpl(32), Tpl(33), Tpl(34), Var("x"), Str(4), Tpl(28), Filt(Str(4), <<FlA("add", Var("it"))>>)}
+StateKeys == {Tpl(31), Str(4)}
+ASSUME StateKeys \subseteq StateLeaves
+ASSUME \A l \in UNION {RichLeaves, ValLeaves, CoreLeaves, TypeLeaves, SmallLeaves} : l.t = "tpl" => l.id \notin StatefulTpl
 \* "mixed": the small alphabet and the core together (random walks far beyond the BFS bounds)
 Leaves == CASE Alpha = "rich" -> RichLeaves [] Alpha = "vals" -> ValLeaves [] Alpha = "core" -> CoreLeaves
             [] Alpha = "types" -> TypeLeaves [] Alpha = "tcore" -> TypeCoreLeaves
+            [] Alpha = "state" -> StateLeaves
             [] Alpha = "mixed" -> SmallLeaves \cup CoreLeaves \cup {Var("tp"), Var("cm")}
             [] OTHER -> SmallLeaves
 \* leaves allowed as a dictionary key (no filter argument: inside a dict literal the first
@@ -139,6 +147,7 @@ RichKeys  == {Str(2), Str(4), Str(5), Str(6), Var("x"), Var("s"), Num("42"), Tra
               Filt(Str(4), <<Fl("upper")>>), Filt(Var("s"), <<Fl("upper"), Fl("lower")>>)}
 KeyLeaves == CASE Alpha = "rich" -> RichKeys [] Alpha = "vals" -> ValKeys [] Alpha = "core" -> CoreKeys
                [] Alpha = "types" -> TypeKeys [] Alpha = "tcore" -> {}
+               [] Alpha = "state" -> StateKeys
                [] Alpha = "mixed" -> CoreKeys
                [] OTHER -> SmallKeys
 \* Keyword names are fixed per argument position (which name is used does not interact with
@@ -338,7 +347,8 @@ Export ==
   IF stk = <<>> /\ args = <<>>
   THEN Out([kind |-> "header", ctx |-> Ctx, styles |-> Styles, canon |-> Canon, from |-> StyleFrom, to |-> StyleTo,
             strtab |-> StrTab, tpltab |-> TplTab,
-            ctxs |-> Ctxs, loopctxs |-> LoopCtxs, loopvar |-> LoopVar, loopover |-> LoopOver, loaded |-> Loaded])
+            ctxs |-> Ctxs, loopctxs |-> LoopCtxs, loopvar |-> LoopVar, loopover |-> LoopOver, loaded |-> Loaded,
+            alpha |-> Alpha, stateful |-> StatefulTpl, together |-> TogetherForms])
   ELSE Complete /\ (AllowInvalid => bad) =>
        Out([kind |-> "case", args |-> args, invalid |-> bad,
             texts |-> [j \in 1..(StyleTo - StyleFrom + 1) |-> Text(args, Styles[StyleFrom + j - 1])],
